@@ -637,7 +637,9 @@ class Update(object):
                     self.violation(replay)
         for n in touched:
             for p in g0[n]['procs']:
-                if p[1] and p[1] in k.live:
+                # children of processes that were STARTING, RUNNING or STOPPING (a process left in
+                # UNKNOWN by an earlier failed kill is outside the hypothesis "no kill error")
+                if p[1] and p[2] in (10, 20, 40) and p[1] in k.live:
                     replay.update(kind='a child of a changed/removed group survived update', group=n, process=p[0], pid=p[1])
                     self.violation(replay)
         if not valid:
